@@ -369,7 +369,7 @@ func formatYear(t time.Time, marker *variableMarker) (string, error) {
 	}
 
 	y := t.Year()
-	if size > 0 {
+	if size > 0 && size < maxPow10 {
 		y = y % pow10(size)
 	}
 
@@ -919,6 +919,10 @@ func countDigits(s string) int {
 
 	return n
 }
+
+// maxPow10 is the smallest n for which pow10(n) overflows
+// an int64. No year has that many digits.
+const maxPow10 = 19
 
 func pow10(n int) int {
 	val := 1
